@@ -12,7 +12,8 @@ open Spec
 def Cfg.spec (c : Cfg) : SCfg := { bytes := c.src, typ := c.typ, action := c.action }
 
 /-- a file's size, when `Stat` reports it, is the length of the source (the file does not change) -/
-def Cfg.Valid (c : Cfg) : Prop := ∀ n, c.rd.fileSize = some n → n = c.src.length
+def Cfg.Valid (c : Cfg) : Prop :=
+  (∀ n, c.rd.fileSize = some n → n = c.src.length) ∧ c.rd.marks = []
 
 /-- the simulation relation: the model's cursor bookkeeping agrees with the specification's cursor -/
 structure Sim (c : Cfg) (s : Stream) (cu : Cursor) : Prop where
@@ -23,8 +24,8 @@ structure Sim (c : Cfg) (s : Stream) (cu : Cursor) : Prop where
   end_of : s.endOfStream ≠ .not → cu.idx = c.src.length
   unread_at : s.eofUnread = true → s.endOfStream = .at
 
-theorem sim_init (c : Cfg) : Sim c Stream.init {} := by
-  refine ⟨⟨Nat.le_refl _, Nat.zero_le _, ?_, ?_⟩, rfl, rfl, ?_, ?_, ?_⟩
+theorem sim_init (c : Cfg) (hv : c.Valid) : Sim c Stream.init {} := by
+  refine ⟨⟨Nat.le_refl _, Nat.zero_le _, ?_, ?_, hv.2⟩, rfl, rfl, ?_, ?_, ?_⟩
   · intro h; exact absurd h (by decide)
   · intro h; exact absurd h (by decide)
   · constructor <;> intro h <;> exact absurd h (by decide)
@@ -80,7 +81,7 @@ theorem sim_reset {c : Cfg} {s : Stream} {cu : Cursor} (h : Sim c s cu) (hp : s.
     Sim c (reset s) { cu with delivered := false } := by
   have hidx : cu.idx = c.src.length := h.end_of (by rw [hp]; decide)
   have := h.buf.cur_le; have := h.buf.fetched_le; have := h.cur_eq
-  refine ⟨⟨Nat.le_refl _, h.buf.fetched_le, ?_, ?_⟩, ?_, h.pos_eq, ?_, ?_, ?_⟩
+  refine ⟨⟨Nat.le_refl _, h.buf.fetched_le, ?_, ?_, h.buf.nomarks⟩, ?_, h.pos_eq, ?_, ?_, ?_⟩
   · intro hh; simp [reset] at hh
   · intro hh; simp [reset] at hh
   · show s.buf.fetched = cu.idx; omega
@@ -119,7 +120,7 @@ theorem sim_checkEOS_false {c : Cfg} (hv : c.Valid) {s : Stream} {cu : Cursor}
           cases hfs : c.rd.fileSize with
           | none => rw [hfs] at h2; simp at h2
           | some n =>
-            have hn := hv n hfs
+            have hn := hv.1 n hfs
             rw [hfs] at h2
             simp only [Option.map_some, Option.some.injEq] at h2
             have h3 := h2.2
@@ -275,7 +276,7 @@ theorem readRuneBody_sim {c : Cfg} (hv : c.Valid) {s : Stream} {cu : Cursor} (h 
           rw [unreadRune_ok c _ ht (by simp) d.2 (by simpa using hlrs) (by simp; omega)]
           simp only [checkEOS_buf, setLastRead_buf, checkEOS_position, setLastRead_position,
             checkEOS_lastRuneSize, setLastRead_lastRuneSize]
-          refine ⟨⟨?_, hbinv.fetched_le, hbinv.pend, hbinv.rderr⟩, ?_, ?_, ?_, ?_, ?_⟩
+          refine ⟨⟨?_, hbinv.fetched_le, hbinv.pend, hbinv.rderr, hbinv.nomarks⟩, ?_, ?_, ?_, ?_, ?_⟩
           · show b.cur - d.2 ≤ b.fetched; have := hbinv.cur_le; omega
           · show b.cur - d.2 = cu.idx; omega
           · show s.position + (d.2 : Int) - (d.2 : Int) = (cu.idx : Int); rw [h.pos_eq]; omega
@@ -460,7 +461,7 @@ theorem readByteBody_sim {c : Cfg} (hv : c.Valid) {s : Stream} {cu : Cursor} (h 
         · rw [unreadByte_ok c _ ht (by simp) (by simpa using hlb) (by simp; omega)]
           simp only [checkEOS_buf, setLastRead_buf, checkEOS_position, setLastRead_position]
           have hc' := h.cur_eq
-          refine ⟨⟨?_, hbinv.fetched_le, hbinv.pend, hbinv.rderr⟩, ?_, ?_, ?_, ?_, ?_⟩
+          refine ⟨⟨?_, hbinv.fetched_le, hbinv.pend, hbinv.rderr, hbinv.nomarks⟩, ?_, ?_, ?_, ?_, ?_⟩
           · show b.cur - 1 ≤ b.fetched; have := hbinv.cur_le; omega
           · show b.cur - 1 = cu.idx; omega
           · show s.position + 1 - 1 = (cu.idx : Int); rw [h.pos_eq]; omega
